@@ -7,13 +7,18 @@
 //	 6 allowMethods  7 allowHeaders  8 expose (hexlists)  9 maxAge(int)  10 credentials  11 privateNetwork
 //	12 method  13 origin  14 acrMethod  15 acrHeaders  16 acrPrivate (hex)  17 skip(0/1)
 //	18 priorVary(hex)  19 afterVary(hexlist)
-//	20 urlFacts: what the real net/url.Parse answers on every string the constructor can hand to it
+//	20 history: the requests served BEFORE this one by the same app on the same reused
+//	   fasthttp.RequestCtx (`-` = none), `;`-joined, each `method:origin:acrm:acrh:acrpn:skip:priorVary:afterVary`
+//	   (hex, `-` = empty; afterVary `+`-joined). The middleware is stateless in the model: the reply
+//	   observed (and judged) is the one to THIS request, whatever came before.
+//	21 urlFacts: what the real net/url.Parse answers on every string the constructor can hand to it
 //	   (and on the request's Origin), `hex(arg)=err` or `hex(arg)=scheme|host|path|rawquery|fragment`
 //	   joined by `;`  — an observation, recomputed on replay
-//	21 the middleware's observation
+//	22 the middleware's observation
 package main
 
 import (
+	"bufio"
 	"encoding/hex"
 	"fmt"
 	"io"
@@ -24,6 +29,7 @@ import (
 	"github.com/gofiber/fiber/v3/log"
 	"github.com/gofiber/fiber/v3/middleware/cors"
 	"github.com/valyala/fasthttp"
+	"github.com/valyala/fasthttp/fasthttputil"
 
 	"verifharness/internal/gen"
 )
@@ -422,62 +428,323 @@ func construct(c cfgIn) (h fiber.Handler, panicked bool) {
 	return cors.New(conf), false
 }
 
-func observe(c cfgIn, q reqIn) (obs string) {
+// observe builds ONE app, serves the history `pre` and then `q` through ONE reused
+// fasthttp.RequestCtx (request and response reset in between, as a keep-alive connection does, so
+// header values land in the same buffers), and reports the reply to `q`.
+func observe(c cfgIn, pre []reqIn, q reqIn) (obs string) {
 	mw, bad := construct(c)
 	if bad {
 		return "panic"
 	}
-	defer func() {
-		if r := recover(); r != nil {
-			obs = "reqpanic"
-		}
-	}()
 	app := fiber.New()
 	ran := false
+	var cur *reqIn
 	// an earlier middleware that already made the response vary
 	app.Use(func(c fiber.Ctx) error {
-		if q.priorVary != "" {
-			c.Set("Vary", q.priorVary)
+		if cur.priorVary != "" {
+			c.Set("Vary", cur.priorVary)
 		}
 		return c.Next()
 	})
 	app.Use(mw)
 	app.Use(func(c fiber.Ctx) error {
 		ran = true
-		if len(q.afterVary) > 0 {
-			c.Vary(q.afterVary...)
+		if len(cur.afterVary) > 0 {
+			c.Vary(cur.afterVary...)
 		}
 		return c.SendStatus(200)
 	})
 	h := app.Handler()
 	var fctx fasthttp.RequestCtx
-	var req fasthttp.Request
-	req.Header.SetMethod(q.method)
-	req.SetRequestURI("/x")
-	if q.origin != "" {
-		req.Header.Set("Origin", q.origin)
+	var req0 fasthttp.Request
+	fctx.Init(&req0, nil, nil)
+	serve := func(r *reqIn) (o string) {
+		defer func() {
+			if rec := recover(); rec != nil {
+				o = "reqpanic"
+			}
+		}()
+		cur, ran = r, false
+		fctx.Request.Reset()
+		fctx.Response.Reset()
+		req := &fctx.Request
+		// Origin first: it lands in the same header slot (and buffer) on every request of the history
+		if r.origin != "" {
+			req.Header.Set("Origin", r.origin)
+		}
+		req.Header.SetMethod(r.method)
+		req.SetRequestURI("/x")
+		if r.acrm != "" {
+			req.Header.Set("Access-Control-Request-Method", r.acrm)
+		}
+		if r.acrh != "" {
+			req.Header.Set("Access-Control-Request-Headers", r.acrh)
+		}
+		if r.acrpn != "" {
+			req.Header.Set("Access-Control-Request-Private-Network", r.acrpn)
+		}
+		if r.skip {
+			req.Header.Set("X-Skip", "1")
+		}
+		h(&fctx)
+		rh := &fctx.Response.Header
+		return fmt.Sprintf("next=%s;s204=%s;acao=%s;acac=%s;vary=%s;am=%s;ah=%s;ma=%s;ex=%s;pn=%s",
+			gen.B(ran), gen.B(fctx.Response.StatusCode() == 204), opt(rh, "Access-Control-Allow-Origin"),
+			gen.B(string(rh.Peek("Access-Control-Allow-Credentials")) == "true"), gen.Hex(string(rh.Peek("Vary"))),
+			opt(rh, "Access-Control-Allow-Methods"), opt(rh, "Access-Control-Allow-Headers"),
+			opt(rh, "Access-Control-Max-Age"), opt(rh, "Access-Control-Expose-Headers"),
+			gen.B(string(rh.Peek("Access-Control-Allow-Private-Network")) == "true"))
 	}
-	if q.acrm != "" {
-		req.Header.Set("Access-Control-Request-Method", q.acrm)
+	for i := range pre {
+		serve(&pre[i])
 	}
-	if q.acrh != "" {
-		req.Header.Set("Access-Control-Request-Headers", q.acrh)
+	obs = serve(&q)
+	// A history is served a second time by a fresh handler over ONE keep-alive connection of a real
+	// fasthttp server (in-memory listener). The two replies must agree; if they do not, the wire
+	// reply is the observation (it is then compared with the model and judged by the spec).
+	if len(pre) > 0 && wireClean(pre, q) {
+		if mw2, bad2 := construct(c); !bad2 {
+			if wobs := observeWire(mw2, pre, q); wobs != obs {
+				return wobs
+			}
+		}
 	}
-	if q.acrpn != "" {
-		req.Header.Set("Access-Control-Request-Private-Network", q.acrpn)
+	return obs
+}
+
+// wireClean: header values (request and response side) the wire delivers unchanged (no blank at either end, no control byte),
+// so that the in-process reply and the wire reply are comparable.
+func wireClean(pre []reqIn, q reqIn) bool {
+	ok := func(v string) bool {
+		if v == "" {
+			return true
+		}
+		if v[0] == ' ' || v[len(v)-1] == ' ' {
+			return false
+		}
+		for i := 0; i < len(v); i++ {
+			if v[i] < 0x20 || v[i] == 0x7f {
+				return false
+			}
+		}
+		return true
 	}
-	if q.skip {
-		req.Header.Set("X-Skip", "1")
+	for _, r := range append(append([]reqIn{}, pre...), q) {
+		if !ok(r.origin) || !ok(r.acrm) || !ok(r.acrh) || !ok(r.acrpn) || !ok(r.priorVary) {
+			return false
+		}
+		for _, a := range r.afterVary {
+			if !ok(a) {
+				return false
+			}
+		}
 	}
-	fctx.Init(&req, nil, nil)
-	h(&fctx)
-	rh := &fctx.Response.Header
-	return fmt.Sprintf("next=%s;s204=%s;acao=%s;acac=%s;vary=%s;am=%s;ah=%s;ma=%s;ex=%s;pn=%s",
-		gen.B(ran), gen.B(fctx.Response.StatusCode() == 204), opt(rh, "Access-Control-Allow-Origin"),
-		gen.B(string(rh.Peek("Access-Control-Allow-Credentials")) == "true"), gen.Hex(string(rh.Peek("Vary"))),
-		opt(rh, "Access-Control-Allow-Methods"), opt(rh, "Access-Control-Allow-Headers"),
-		opt(rh, "Access-Control-Max-Age"), opt(rh, "Access-Control-Expose-Headers"),
-		gen.B(string(rh.Peek("Access-Control-Allow-Private-Network")) == "true"))
+	return true
+}
+
+func observeWire(mw fiber.Handler, pre []reqIn, q reqIn) (obs string) {
+	app := fiber.New()
+	ran, panicked := false, false
+	var cur *reqIn
+	app.Use(func(c fiber.Ctx) error {
+		if cur.priorVary != "" {
+			c.Set("Vary", cur.priorVary)
+		}
+		return c.Next()
+	})
+	app.Use(mw)
+	app.Use(func(c fiber.Ctx) error {
+		ran = true
+		if len(cur.afterVary) > 0 {
+			c.Vary(cur.afterVary...)
+		}
+		return c.SendStatus(200)
+	})
+	inner := app.Handler()
+	srv := &fasthttp.Server{Handler: func(ctx *fasthttp.RequestCtx) {
+		defer func() {
+			if rec := recover(); rec != nil {
+				panicked = true
+				ctx.Response.Reset()
+				ctx.SetStatusCode(500)
+			}
+		}()
+		inner(ctx)
+	}}
+	ln := fasthttputil.NewInmemoryListener()
+	go srv.Serve(ln) //nolint:errcheck // ends when the listener is closed
+	defer ln.Close()
+	conn, err := ln.Dial()
+	if err != nil {
+		return "wire-dial-error"
+	}
+	defer conn.Close()
+	br := bufio.NewReader(conn)
+	serve := func(r *reqIn) string {
+		cur, ran, panicked = r, false, false
+		var sb strings.Builder
+		sb.WriteString(r.method + " /x HTTP/1.1\r\nHost: h\r\n")
+		hdr := func(k, v string) {
+			if v != "" {
+				sb.WriteString(k + ": " + v + "\r\n")
+			}
+		}
+		hdr("Origin", r.origin)
+		hdr("Access-Control-Request-Method", r.acrm)
+		hdr("Access-Control-Request-Headers", r.acrh)
+		hdr("Access-Control-Request-Private-Network", r.acrpn)
+		if r.skip {
+			hdr("X-Skip", "1")
+		}
+		sb.WriteString("\r\n")
+		if _, err := conn.Write([]byte(sb.String())); err != nil {
+			return "wire-write-error"
+		}
+		var resp fasthttp.Response
+		resp.SkipBody = r.method == "HEAD"
+		if err := resp.Read(br); err != nil {
+			return "wire-read-error:" + err.Error()
+		}
+		if panicked {
+			return "reqpanic"
+		}
+		rh := &resp.Header
+		return fmt.Sprintf("next=%s;s204=%s;acao=%s;acac=%s;vary=%s;am=%s;ah=%s;ma=%s;ex=%s;pn=%s",
+			gen.B(ran), gen.B(resp.StatusCode() == 204), opt(rh, "Access-Control-Allow-Origin"),
+			gen.B(string(rh.Peek("Access-Control-Allow-Credentials")) == "true"), gen.Hex(string(rh.Peek("Vary"))),
+			opt(rh, "Access-Control-Allow-Methods"), opt(rh, "Access-Control-Allow-Headers"),
+			opt(rh, "Access-Control-Max-Age"), opt(rh, "Access-Control-Expose-Headers"),
+			gen.B(string(rh.Peek("Access-Control-Allow-Private-Network")) == "true"))
+	}
+	for i := range pre {
+		if o := serve(&pre[i]); strings.HasPrefix(o, "wire-") {
+			return o
+		}
+	}
+	return serve(&q)
+}
+
+// ---- histories --------------------------------------------------------------------------------
+
+func encReq(q reqIn) string {
+	after := "-"
+	if len(q.afterVary) > 0 {
+		parts := make([]string, len(q.afterVary))
+		for i, a := range q.afterVary {
+			parts[i] = gen.Hex(a)
+		}
+		after = strings.Join(parts, "+")
+	}
+	return strings.Join([]string{gen.Hex(q.method), gen.Hex(q.origin), gen.Hex(q.acrm), gen.Hex(q.acrh), gen.Hex(q.acrpn),
+		gen.B(q.skip), gen.Hex(q.priorVary), after}, ":")
+}
+
+func encHistory(pre []reqIn) string {
+	if len(pre) == 0 {
+		return "-"
+	}
+	parts := make([]string, len(pre))
+	for i, q := range pre {
+		parts[i] = encReq(q)
+	}
+	return strings.Join(parts, ";")
+}
+
+// decHistory is forgiving: the shrinker may hand it mangled text; what does not parse is dropped.
+func decHistory(s string) (out []reqIn) {
+	if s == "-" || s == "" {
+		return nil
+	}
+	unhex := func(x string) (string, bool) {
+		if x == "-" {
+			return "", true
+		}
+		b, err := hex.DecodeString(x)
+		return string(b), err == nil
+	}
+	for _, p := range strings.Split(s, ";") {
+		f := strings.Split(p, ":")
+		if len(f) != 8 {
+			continue
+		}
+		var q reqIn
+		ok := true
+		get := func(x string) string {
+			v, k := unhex(x)
+			ok = ok && k
+			return v
+		}
+		q.method, q.origin, q.acrm, q.acrh, q.acrpn = get(f[0]), get(f[1]), get(f[2]), get(f[3]), get(f[4])
+		q.skip = f[5] == "1"
+		q.priorVary = get(f[6])
+		if f[7] != "-" {
+			for _, a := range strings.Split(f[7], "+") {
+				q.afterVary = append(q.afterVary, get(a))
+			}
+		}
+		if ok {
+			out = append(out, q)
+		}
+	}
+	return out
+}
+
+// genHistory: a configuration whose allow function and static list split a pool of SAME-LENGTH
+// lower-case origins into accepted-by-function / refused / statically listed / not listed, and 2-4
+// requests over that pool with otherwise equal headers. A middleware that remembers anything about
+// an earlier request (a verdict, a header value it does not own) shows here and nowhere else.
+func genHistory(r *gen.Rand, w *gen.Writer) (cfgIn, []reqIn) {
+	c := genCfg(r, w)
+	scheme := gen.Pick(r, []string{"https", "http"})
+	dom := gen.Pick(r, []string{".example.com", ".a.io", ".example.com:8443"})
+	pool := make([]string, 6)
+	for i := range pool {
+		pool[i] = fmt.Sprintf("%s://%c%c%s", scheme, 'a'+byte(r.Intn(26)), 'a'+byte(i), dom)
+	}
+	// keep only entries the constructor accepts, so the history is served
+	var kept []string
+	for _, e := range c.origins {
+		if _, bad := construct(cfgIn{origins: []string{e}}); !bad && e != "*" {
+			kept = append(kept, e)
+		}
+	}
+	c.origins = kept
+	if r.Chance(1, 2) {
+		c.origins = append(c.origins, pool[0]) // statically listed
+	}
+	c.funcSet = r.Chance(5, 6)
+	c.funcAllows, c.funcPanics = nil, nil
+	if c.funcSet {
+		c.funcAllows = append(c.funcAllows, pool[1], pool[2]) // accepted by the function
+		if r.Chance(1, 10) {
+			c.funcPanics = append(c.funcPanics, pool[5])
+		}
+	}
+	if len(c.origins) == 0 && !c.funcSet {
+		c.origins = append(c.origins, pool[0])
+	}
+	n := 2 + r.Intn(3)
+	base := genReq(r, w, c)
+	base.skip = base.skip && r.Chance(1, 4)
+	hist := make([]reqIn, n)
+	for i := range hist {
+		q := base
+		if r.Chance(1, 6) {
+			q = genReq(r, w, c)
+		}
+		q.origin = gen.Pick(r, pool)
+		if i > 0 && r.Chance(2, 3) {
+			// alternate the verdict: accepted <-> refused
+			if hist[i-1].origin == pool[1] || hist[i-1].origin == pool[2] || hist[i-1].origin == pool[0] {
+				q.origin = gen.Pick(r, pool[3:5])
+			} else {
+				q.origin = gen.Pick(r, pool[0:3])
+			}
+		}
+		hist[i] = q
+	}
+	w.Count("history")
+	return c, hist
 }
 
 // urlFacts: the real net/url.Parse on every string the constructor can pass to it (each entry
@@ -510,8 +777,8 @@ func urlFacts(c cfgIn, q reqIn) string {
 	return strings.Join(out, ";")
 }
 
-func emit(w *gen.Writer, id string, c cfgIn, q reqIn) string {
-	obs := observe(c, q)
+func emit(w *gen.Writer, id string, c cfgIn, pre []reqIn, q reqIn) string {
+	obs := observe(c, pre, q)
 	switch obs {
 	case "panic":
 		w.Count("ctor-panic")
@@ -521,7 +788,7 @@ func emit(w *gen.Writer, id string, c cfgIn, q reqIn) string {
 	w.Case(id, gen.HexList(c.origins), gen.B(c.nextSet), gen.B(c.funcSet), gen.HexList(c.funcAllows), gen.HexList(c.funcPanics),
 		gen.HexList(c.methods), gen.HexList(c.headers), gen.HexList(c.expose), gen.I(c.maxAge), gen.B(c.creds), gen.B(c.pn),
 		gen.Hex(q.method), gen.Hex(q.origin), gen.Hex(q.acrm), gen.Hex(q.acrh), gen.Hex(q.acrpn), gen.B(q.skip),
-		gen.Hex(q.priorVary), gen.HexList(q.afterVary), urlFacts(c, q), obs)
+		gen.Hex(q.priorVary), gen.HexList(q.afterVary), encHistory(pre), urlFacts(c, q), obs)
 	return obs
 }
 
@@ -542,7 +809,11 @@ func main() {
 				maxAge: mi, creds: f[10] == "1", pn: f[11] == "1"}
 			q := reqIn{method: gen.UnHex(f[12]), origin: gen.UnHex(f[13]), acrm: gen.UnHex(f[14]), acrh: gen.UnHex(f[15]),
 				acrpn: gen.UnHex(f[16]), skip: f[17] == "1", priorVary: gen.UnHex(f[18]), afterVary: gen.UnHexList(f[19])}
-			emit(w, f[0], c, q)
+			var pre []reqIn
+			if len(f) >= 23 {
+				pre = decHistory(f[20])
+			}
+			emit(w, f[0], c, pre, q)
 		}
 		return
 	}
@@ -551,9 +822,18 @@ func main() {
 	n := 0
 	for i := 0; n < o.N; i++ {
 		r := root.Fork(uint64(i))
+		if r.Chance(1, 6) {
+			// a short history on one app and one reused request context: one case per position
+			c, hist := genHistory(r, w)
+			for j := 0; j < len(hist) && n < o.N; j++ {
+				emit(w, fmt.Sprintf("s%d.%d.h%d", o.Seed, i, j), c, hist[:j], hist[j])
+				n++
+			}
+			continue
+		}
 		c := genCfg(r, w)
 		for j := 0; j < perCfg && n < o.N; j++ {
-			obs := emit(w, fmt.Sprintf("s%d.%d.%d", o.Seed, i, j), c, genReq(r, w, c))
+			obs := emit(w, fmt.Sprintf("s%d.%d.%d", o.Seed, i, j), c, nil, genReq(r, w, c))
 			n++
 			if obs == "panic" && j >= 1 {
 				break // a refused configuration serves nothing: two requests are enough
